@@ -203,6 +203,10 @@ def run(ctx):
     # coordinates of the other symbols (C15's substitute / unquantify obligations under C10 names)
     from checks import c15
     ctx.restate(c15.run, 'C15.', 'C10.subst.', keep=lambda n: 'substitute' in n or 'unquantify' in n or 'rshift' in n)
+    # closure of A against A needs the lookup behind branch.has/find to find a node that is on the branch
+    from checks import index_ob
+    index_ob.index_obligations(ctx, 'C10.index')
+    index_ob.register_replayers(ctx, 'C10.index')
     bounded_meta(ctx)
     ctx.replayers['C10.'] = lambda r: dict(reproduced=None, detail='see counterexample / meta')
 
